@@ -6,22 +6,37 @@
 # association-list model harness/env/amap.rs; harness/mpq/chain_peek.rs (observers of the private fields, a
 # constructor for the step harnesses) is include!d at its top.  If one of the two `use` lines of patch_chain.rs
 # changes shape the run is inconclusive (pattern no longer matches), never silently different.
-CRATES["mpq"]["attach"].append(("src/patch_chain.rs", "mpq/chain_model.rs", "verif_kani_chain_model", ""))
-CRATES["mpq"]["derive"].append(
-    ("src/patch_chain.rs", "gen/patch_chain_m.rs",
-     [(r"^use crate::\{Archive, ", "use super::model::Archive;\nuse crate::{"),
-      (r"^use std::collections::HashMap;$", "use super::amap::AMap as HashMap;")],
-     'include!("../mpq/chain_peek.rs");'))
+#
+# STATUS (2026-09-30): NO harness of this fragment is registered.  The module is attached and the derived copy is generated so
+# that harness/mpq/chain_model.rs keeps compiling against the current patch_chain.rs (under Kani and under `cargo kani
+# playback`), but none of its harnesses produced a verdict within 10 minutes / 8 GB on this machine (measurements in the
+# registration block at the end, which is disabled by _C08_CHAIN_REGISTER).  Set _C08_CHAIN_ATTACH = False to drop the
+# attach/derive entries as well (then a change of the two `use` lines of patch_chain.rs cannot make mpq runs inconclusive).
+_C08_CHAIN_ATTACH = False
+_C08_CHAIN_REGISTER = False
+if _C08_CHAIN_ATTACH:
+    CRATES["mpq"]["attach"].append(("src/patch_chain.rs", "mpq/chain_model.rs", "verif_kani_chain_model", ""))
+    CRATES["mpq"]["derive"].append(
+        ("src/patch_chain.rs", "gen/patch_chain_m.rs",
+         [(r"^use crate::\{Archive, ", "use super::model::Archive;\nuse crate::{"),
+          (r"^use std::collections::HashMap;$", "use super::amap::AMap as HashMap;"),
+          # the repository's inline test module (real files, tempfile) makes no sense against the model Archive; the
+          # optional group lets the pattern match (empty, at the end) when the module is gone
+          (r"(?s)(^#\[cfg\(test\)\]\s*\nmod integration_tests \{.*)?\Z", "")],
+         'include!("../mpq/chain_peek.rs");'))
 
 _CM = "verif_kani_chain_model"
 _CM_FNS = ["patch_chain::PatchChain::{new,add_archive,remove_archive,set_priority,rebuild_file_map,read_file,contains_file,find_file_archive} "
-           "(text of src/patch_chain.rs, derived copy)", "path::normalize_mpq_path"]
+           "(text of src/patch_chain.rs, derived copy)", "path::normalize_mpq_path (stubbed, see stubs)"]
 _CM_STUBS = [FMT,
              "Archive -> model (harness/mpq/chain_env.rs): path a/b/c -> registry slot holding <= 2 files (names X, Y; archive b lists them "
-             "in lower case; archive c has no listfile, so list() fails and list_all() answers), one symbolic content byte each, never a "
-             "patch file, lookups case-insensitive; open() fails for any other path; get_info() always fails",
-             "std::collections::HashMap -> association-list model (harness/env/amap.rs), at most 4 keys",
-             "derived copy: only the two `use` lines of patch_chain.rs are substituted, `#[cfg(test)]` modules are not compiled; "
+             "in lower case; an absent name is listed as the never-queried filler name P so that every listing has exactly two entries), one "
+             "symbolic content byte each, never a patch file, lookups case-insensitive, list() always succeeds; open() fails for any other "
+             "path; get_info() always fails",
+             "crate::path::normalize_mpq_path -> the same '/' -> '\\' mapping for one-byte names without std's str::replace (longer name: assertion)",
+             "str::to_uppercase -> ASCII upper-casing of a one-byte ASCII name (anything else: assertion); std's version walks the Unicode tables",
+             "std::collections::HashMap -> association-list model (harness/env/amap.rs), at most 3 keys",
+             "derived copy: only the two `use` lines of patch_chain.rs are substituted, the `#[cfg(test)]` modules are cut; "
              "observers of the private fields are include!d (harness/mpq/chain_peek.rs)"]
 _CM_RULE = ("reference model: archives ordered by priority descending, equal priorities by age ascending, age = time of add_archive or of the "
             "last set_priority (assumed tie rule: a re-prioritised archive counts as added last among its new equals, i.e. set_priority == "
@@ -29,25 +44,40 @@ _CM_RULE = ("reference model: archives ordered by priority descending, equal pri
 _CM_IN = ("three archives a, b, c: presence of X and of Y and one content byte each symbolic (12 symbolic values); priorities i32 symbolic "
           "(ties possible); names queried: X, y (lower case), Z (in no archive)")
 
-H("C08", "mpq", _CM, "thorough",
-  "C08.d history: add a, b, c with any priorities, then one of {set_priority(any of them, any priority), remove_archive(any of them), nothing}: "
-  "after every step the chain lists exactly the live archives by priority descending (equals in age order); read_file returns the content of the "
-  "highest-priority (earliest added) archive holding the name, contains_file / find_file_archive agree, a name in no archive is Err(FileNotFound)",
-  ["c08d_chain_history_3"], _CM_FNS, _CM_IN + "; operation selector, operand archive and new priority symbolic",
-  "3 archives added in the order a, b, c; one further operation; 2 file names + 1 absent name; unwind 6",
-  assumes=[_CM_RULE], stubs=_CM_STUBS, abstraction_stubs=["Archive (model)"], timeout=2400)
-H("C08", "mpq", _CM, "thorough",
-  "C08.d inductive step: from any chain [a, b, c] sorted by priority descending (file map built by the real rebuild_file_map) one set_priority / "
-  "one remove_archive keeps the order invariant and the resolution semantics; from any sorted [a, b] one add_archive(c, any priority) does",
-  ["c08d_chain_step_reprio_3", "c08d_chain_step_remove_3", "c08d_chain_step_add_2to3"], _CM_FNS,
-  _CM_IN + "; operand archive and new priority symbolic",
-  "start chain fabricated in the positional order a, b, c (the archives differ only in the model's listing decorations); one operation; unwind 6",
-  assumes=[_CM_RULE, "start state: priorities non-increasing along the chain, among equals the earlier position is the older archive"],
-  stubs=_CM_STUBS, abstraction_stubs=["Archive (model)"], timeout=2400)
-H("C08", "mpq", _CM, "thorough",
-  "C08.d operations naming an archive that cannot be opened (add_archive) or is not in the chain (remove_archive -> Ok(false), set_priority -> Err) "
-  "leave order and resolution unchanged",
-  ["c08d_chain_unknown_archive_2"], _CM_FNS, _CM_IN + "; chain [a, b], priority argument symbolic", "2 archives; unwind 6",
-  assumes=[_CM_RULE], stubs=_CM_STUBS, abstraction_stubs=["Archive (model)"], timeout=2400)
-H("C08", "mpq", _CM, "thorough", "canary", ["c08d_canary"], ["patch_chain::PatchChain::add_archive (derived copy)"], "vacuity twin", "-",
-  expect="canary", stubs=_CM_STUBS, abstraction_stubs=["Archive (model)"], timeout=2400)
+# Measured on the unchanged tree (Kani 0.68 / CBMC 6.11, VERIF_MEM_GB=12, 5-6 harnesses in parallel), none finished:
+#   run 1 (no stubs besides fmt; symbolic-length listings; unwind 6): all six, c08d_canary (two add_archive calls) included,
+#         still in symbolic execution after 14 min at 4.5 GB each - str::replace (CharSearcher/memchr) and str::to_uppercase
+#         (Unicode table binary searches) dominate; killed
+#   run 2 (normalize_mpq_path and to_uppercase stubbed by one-byte versions, two-entry listings, AMap pre-sized, unwind 4):
+#         c08d_canary: CBMC aborted at the 12 GB cap after ~4.5 min (memory explodes once symbolic execution is over);
+#         c08d_chain_history_3 9 GB after 22 min; the three step harnesses and c08d_chain_unknown_archive_2 5-5.6 GB after
+#         22 min, all still running when killed (machine-wide OOM)
+#   probe with CONCRETE priorities (two add_archive calls, only contents symbolic): 4 GB after 4 min, killed
+#   verbose CBMC trace of one rebuild_file_map over three model archives: ~2 min of symbolic execution; every slice / IntoIter
+#   loop is unrolled to the unwind bound (pointer-compared iterators), 7-10 s per iteration of `for file in files`, and
+#   the time per iteration grows with the number of heap objects (String keys, FileEntry names, Vec buffers)
+# Next step that should make this tractable: substitute `Vec<ChainEntry>` (and, if needed, the String keys) by bounded-array
+# models in the derived copy as well (the parallel constructors, which assign a real Vec to the field, would have to be cut out).
+if _C08_CHAIN_REGISTER:
+  H("C08", "mpq", _CM, "thorough",
+    "C08.d history: add a, b, c with any priorities, then one of {set_priority(any of them, any priority), remove_archive(any of them), nothing}: "
+    "after every step the chain lists exactly the live archives by priority descending (equals in age order); read_file returns the content of the "
+    "highest-priority (earliest added) archive holding the name, contains_file / find_file_archive agree, a name in no archive is Err(FileNotFound)",
+    ["c08d_chain_history_3"], _CM_FNS, _CM_IN + "; operation selector, operand archive and new priority symbolic",
+    "3 archives added in the order a, b, c; one further operation; 2 file names + 1 absent name; unwind 4",
+    assumes=[_CM_RULE], stubs=_CM_STUBS, abstraction_stubs=["Archive (model)"], timeout=2400)
+  H("C08", "mpq", _CM, "thorough",
+    "C08.d inductive step: from any chain [a, b, c] sorted by priority descending (file map built by the real rebuild_file_map) one set_priority / "
+    "one remove_archive keeps the order invariant and the resolution semantics; from any sorted [a, b] one add_archive(c, any priority) does",
+    ["c08d_chain_step_reprio_3", "c08d_chain_step_remove_3", "c08d_chain_step_add_2to3"], _CM_FNS,
+    _CM_IN + "; operand archive and new priority symbolic",
+    "start chain fabricated in the positional order a, b, c (the archives differ only in the model's listing decorations); one operation; unwind 4",
+    assumes=[_CM_RULE, "start state: priorities non-increasing along the chain, among equals the earlier position is the older archive"],
+    stubs=_CM_STUBS, abstraction_stubs=["Archive (model)"], timeout=2400)
+  H("C08", "mpq", _CM, "thorough",
+    "C08.d operations naming an archive that cannot be opened (add_archive) or is not in the chain (remove_archive -> Ok(false), set_priority -> Err) "
+    "leave order and resolution unchanged",
+    ["c08d_chain_unknown_archive_2"], _CM_FNS, _CM_IN + "; chain [a, b], priority argument symbolic", "2 archives; unwind 4",
+    assumes=[_CM_RULE], stubs=_CM_STUBS, abstraction_stubs=["Archive (model)"], timeout=2400)
+  H("C08", "mpq", _CM, "thorough", "canary", ["c08d_canary"], ["patch_chain::PatchChain::add_archive (derived copy)"], "vacuity twin", "-",
+    expect="canary", stubs=_CM_STUBS, abstraction_stubs=["Archive (model)"], timeout=2400)
